@@ -63,6 +63,7 @@ type Program struct {
 	repo          string
 	mirror        string
 	loadNotes     []string
+	recvRules     []*RecvRule
 }
 
 func newProgram(repo, mirror string) *Program {
@@ -219,6 +220,12 @@ func (p *Program) addContractFile(cf *ContractFile) error {
 			return fmt.Errorf("duplicate contract for %s (%s:%d and %s:%d)", full, old.File, old.Line, c.File, c.Line)
 		}
 		p.contracts[full] = c
+		if c.Assume && !strings.Contains(c.Key, "/") {
+			// "Type.Method" written without a path: also a local key of this package
+			if _, dup := p.contracts[cf.Pkg+"."+c.Key]; !dup {
+				p.contracts[cf.Pkg+"."+c.Key] = c
+			}
+		}
 	}
 	for _, g := range cf.Ghosts {
 		if strings.HasPrefix(g.Name, "chan:") {
@@ -246,6 +253,7 @@ func (p *Program) addContractFile(cf *ContractFile) error {
 	for _, t := range cf.Types {
 		p.typeSpecs[cf.Pkg+"."+t.Name] = t
 	}
+	p.recvRules = append(p.recvRules, cf.RecvRules...)
 	return nil
 }
 
